@@ -1,5 +1,6 @@
 import GeoVerif.Model.GridCodes
 import GeoVerif.Proofs.F64Round
+import GeoVerif.Proofs.Digits
 import GeoVerif.Props.C16
 /-!
 # C18 — property theorems (grid codes), integer level
@@ -455,6 +456,108 @@ example : (match GARS.scaleExact (.fin true 6327322913974955 (-46)) (.fin false 
     | _, _ => false) = true := by decide +kernel
 /-- a representable product: `lat = 45.5`, `lon = 0.25` -/
 example : (Dy.round53 (Dy.mul (prepLat (.fin false 91 (-1))).toDy (F64.ofInt GARS.m).toDy)).m = 1092 := by decide +kernel
+
+/-! ### integer codec round trips (all inputs)
+
+`readNum ∘ digitsW` for every table (`Proofs/Digits.lean`, by induction), then `decodeInt ∘ encodeInt` for GARS. -/
+
+/-- **digit strings read back**: for a table whose `lookup` inverts `chr` on `[0, b)`,
+`readNum (toBytes (digitsW tbl b w n)) = some (n mod b^w)` (every width, every `n`) -/
+theorem digits_readback (tbl : List Char) (b : Nat) (hb : 0 < b)
+    (ht : ∀ k < b, lookup tbl (chr tbl k).toNat = some k) (w n : Nat) :
+    readNum tbl b (toBytes (digitsW tbl b w n)) = some (n % b ^ w) :=
+  Digits.readNum_digitsW tbl b hb ht w n
+
+theorem gars_lon_readback (n : Nat) : readNum GARS.digits 10 (toBytes (digitsW GARS.digits 10 3 n)) = some (n % 1000) :=
+  digits_readback _ 10 (by norm_num) gars_digits_lookup 3 n
+theorem gars_lat_readback (n : Nat) : readNum GARS.letters 24 (toBytes (digitsW GARS.letters 24 2 n)) = some (n % 576) :=
+  digits_readback _ 24 (by norm_num) gars_letters_lookup 2 n
+theorem georef_digits_readback (w n : Nat) :
+    readNum Georef.digits 10 (toBytes (digitsW Georef.digits 10 w n)) = some (n % 10 ^ w) :=
+  digits_readback _ 10 (by norm_num) (by decide) w n
+theorem osgb_digits_readback (w n : Nat) :
+    readNum OSGB.digits 10 (toBytes (digitsW OSGB.digits 10 w n)) = some (n % 10 ^ w) :=
+  digits_readback _ 10 (by norm_num) osgb_digits_lookup w n
+
+/-- decoder on a well-formed 5/6/7-character string given by its table indices -/
+theorem gars_decode_chars (a b c d e : Nat) (k6 k7 : Nat) (prec : Nat) (hp : prec ≤ 2) (cp : Bool)
+    (ha : a < 10) (hb : b < 10) (hc : c < 10) (hd : d < 24) (he : e < 24)
+    (h1 : 1 ≤ 100 * a + 10 * b + c) (h2 : 100 * a + 10 * b + c ≤ 720) (h3 : 24 * d + e < 360)
+    (h6 : 1 ≤ k6 ∧ k6 ≤ 4) (h7 : 1 ≤ k7 ∧ k7 ≤ 9) :
+    GARS.decodeInt (toBytes ([chr GARS.digits a, chr GARS.digits b, chr GARS.digits c, chr GARS.letters d, chr GARS.letters e]
+        ++ (if prec > 0 then [chr GARS.digits k6] else []) ++ (if prec > 1 then [chr GARS.digits k7] else []))) cp
+     = let lat0 : Int := (24 * d + e : Nat) - 180
+       let lon0 : Int := (100 * a + 10 * b + c : Nat) - 1 - 360
+       let lat1 : Int := if prec > 0 then 2 * lat0 + (1 - ((k6 : Int) - 1) / 2) else lat0
+       let lon1 : Int := if prec > 0 then 2 * lon0 + ((k6 : Int) - 1) % 2 else lon0
+       let lat2 : Int := if prec > 1 then 3 * lat1 + (2 - ((k7 : Int) - 1) / 3) else lat1
+       let lon2 : Int := if prec > 1 then 3 * lon1 + ((k7 : Int) - 1) % 3 else lon1
+       let u : Int := 2 * (if prec > 0 then 2 else 1) * (if prec > 1 then 3 else 1)
+       .ok ⟨if cp then 2 * lat2 + 1 else lat2, if cp then 2 * lon2 + 1 else lon2, if cp then u * 2 else u, prec⟩ := by
+  have hk6 : k6 < 10 := by omega
+  have hk7 : k7 < 10 := by omega
+  have c1 : ¬ (((a:Int) * 10 + b) * 10 + c < 1 ∨ 720 < ((a:Int) * 10 + b) * 10 + c) := by omega
+  have c2 : ((d:Int) * 24 + e < 360) := by omega
+  have c5 : ¬ (k6 = 0 ∨ 4 < k6) := by omega
+  have c6 : ¬ (k7 = 0) := by omega
+  unfold GARS.decodeInt
+  obtain rfl | rfl | rfl : prec = 0 ∨ prec = 1 ∨ prec = 2 := by omega
+  all_goals
+    simp only [toBytes, gars_baselen, gars_maxlen, gars_lonlen, gars_latlen,
+      gars_baselon, gars_baselat, gars_mult1, gars_mult2, gars_mult3, gars_latorig, gars_lonorig, Gen.MathC.td]
+    cases cp <;>
+    simp [gars_digits_lookup a ha, gars_digits_lookup b hb, gars_digits_lookup c hc, gars_letters_lookup d hd, gars_letters_lookup e he,
+      gars_digits_lookup k6 hk6, gars_digits_lookup k7 hk7, c1, c2, c5, c6]
+  all_goals
+    show Except.ok _ = Except.ok _
+    congr 1
+    simp only [GARS.Dec.mk.injEq, and_true]
+    constructor <;> omega
+
+
+theorem gars_encodeInt_form (X Y : Int) (prec : Nat) :
+    GARS.encodeInt X Y prec =
+      let ilon := X * 2 / 12; let ilat := Y * 2 / 12
+      let x := X - ilon * 12 / 2; let y := Y - ilat * 12 / 2
+      let n := (ilon + 1).toNat; let l := ilat.toNat
+      [chr GARS.digits (n / 10 / 10 % 10), chr GARS.digits (n / 10 % 10), chr GARS.digits (n % 10),
+       chr GARS.letters (l / 24 % 24), chr GARS.letters (l % 24)] ++
+      (if prec > 0 then [chr GARS.digits (2 * (2 - 1 - y / 3) + x / 3 + 1).toNat] else []) ++
+      (if prec > 1 then [chr GARS.digits (3 * (3 - 1 - y % 3) + x % 3 + 1).toNat] else []) := by
+  simp [GARS.encodeInt, digitsW, GARS.m, gars_mult1, gars_m, gars_baselon, gars_lonlen, gars_baselat, gars_latlen, gars_mult2, gars_mult3]
+
+/-- cells per degree at precision 0/1/2: 2, 4, 12 -/
+def garsUnit (prec : Nat) : Int := 2 * (if prec > 0 then 2 else 1) * (if prec > 1 then 3 else 1)
+
+/-- **`decode_encode_int`, GARS** (all cells, all precisions, both `centerp`): decoding the code of the finest-level
+cell `(X, Y)` returns the precision and the cell of `(X, Y)` at that precision — `lon1 = ⌊X / (m/u)⌋ + lonorig·u`
+in units of `1/u` degree, `u = garsUnit prec` (or the centre `2·lon1 + 1` in units `1/(2u)`). -/
+theorem gars_decode_encode (X Y : Int) (hX : 0 ≤ X ∧ X < 360 * GARS.m) (hY : 0 ≤ Y ∧ Y < 180 * GARS.m)
+    (prec : Nat) (hp : prec ≤ 2) (cp : Bool) :
+    GARS.decodeInt (toBytes (GARS.encodeInt X Y prec)) cp =
+      let u := garsUnit prec
+      let lat1 := Y / (GARS.m / u) + gars_latorig * u
+      let lon1 := X / (GARS.m / u) + gars_lonorig * u
+      .ok ⟨if cp then 2 * lat1 + 1 else lat1, if cp then 2 * lon1 + 1 else lon1, if cp then u * 2 else u, prec⟩ := by
+  have hm : GARS.m = 12 := rfl
+  rw [hm] at hX hY
+  rw [gars_encodeInt_form]
+  simp only []
+  rw [gars_decode_chars _ _ _ _ _ _ _ prec hp cp (Nat.mod_lt _ (by norm_num)) (Nat.mod_lt _ (by norm_num))
+    (Nat.mod_lt _ (by norm_num)) (Nat.mod_lt _ (by norm_num)) (Nat.mod_lt _ (by norm_num))
+    (by omega) (by omega) (by omega) (by omega) (by omega)]
+  simp only [garsUnit, hm, gars_latorig, gars_lonorig]
+  obtain rfl | rfl | rfl : prec = 0 ∨ prec = 1 ∨ prec = 2 := by omega
+  all_goals
+    cases cp <;>
+    · simp only [Nat.lt_irrefl, Nat.zero_lt_one, Nat.one_lt_two, Nat.zero_lt_two, gt_iff_lt, if_true, if_false,
+        Bool.false_eq_true, Nat.not_lt_zero]
+      congr 1
+      simp only [GARS.Dec.mk.injEq, and_true]
+      constructor <;> omega
+
+example : (match GARS.decodeInt (toBytes (GARS.encodeInt 2167 1085 2)) true with
+    | .ok d => decide (d = ⟨2 * (1085 - 1080) + 1, 2 * (2167 - 2160) + 1, 24, 2⟩) | .error _ => false) = true := by decide
 
 /-! ### non-vacuity: concrete codes -/
 example : String.ofList (GARS.encodeInt (4320 / 2 + 7) (2160 / 2 + 5) 2) = "362HN12" := by decide
